@@ -132,18 +132,98 @@ def valid (p : Str) : Bool :=
 
 def trimWs (s : Str) : Str := ((s.dropWhile isWs).reverse.dropWhile isWs).reverse
 
-/-- body of a JSON string literal → Go string (escapes resolved; a `\u` escape gives the character with that code —
-surrogate pairs and invalid UTF-8 are not reproduced exactly, they are never hex digits or account characters) -/
+/-! ### UTF-8 decoding as Go does it for rune-wise code (`range` over a string, fmt's ReadRune)
+
+`utf8.DecodeRune`: a well-formed sequence gives its code point; anything else (stray continuation byte, overlong
+form, surrogate, value above U+10FFFF, truncated sequence) gives U+FFFD and consumes ONE byte. Input characters are
+bytes (below 256); a character that is not a byte is passed through. -/
+
+def isCont (c : Char) : Bool := 0x80 ≤ c.toNat && c.toNat ≤ 0xBF
+def runeError : Char := Char.ofNat 0xFFFD
+
+/-- the first rune of a non-empty byte string and the number of bytes it occupies -/
+def decodeRune1 (c : Char) (r : Str) : Char × Nat :=
+  let b0 := c.toNat
+  if b0 < 0x80 ∨ 0x100 ≤ b0 then (c, 1)
+  else if 0xC2 ≤ b0 ∧ b0 ≤ 0xDF then
+    match r with
+    | c1 :: _ => if isCont c1 then (Char.ofNat ((b0 % 32) * 64 + c1.toNat % 64), 2) else (runeError, 1)
+    | _ => (runeError, 1)
+  else if 0xE0 ≤ b0 ∧ b0 ≤ 0xEF then
+    match r with
+    | c1 :: c2 :: _ =>
+      let lo := if b0 = 0xE0 then 0xA0 else 0x80
+      let hi := if b0 = 0xED then 0x9F else 0xBF
+      if lo ≤ c1.toNat ∧ c1.toNat ≤ hi ∧ isCont c2 then
+        (Char.ofNat (((b0 % 16) * 64 + c1.toNat % 64) * 64 + c2.toNat % 64), 3)
+      else (runeError, 1)
+    | _ => (runeError, 1)
+  else if 0xF0 ≤ b0 ∧ b0 ≤ 0xF4 then
+    match r with
+    | c1 :: c2 :: c3 :: _ =>
+      let lo := if b0 = 0xF0 then 0x90 else 0x80
+      let hi := if b0 = 0xF4 then 0x8F else 0xBF
+      if lo ≤ c1.toNat ∧ c1.toNat ≤ hi ∧ isCont c2 ∧ isCont c3 then
+        (Char.ofNat ((((b0 % 8) * 64 + c1.toNat % 64) * 64 + c2.toNat % 64) * 64 + c3.toNat % 64), 4)
+      else (runeError, 1)
+    | _ => (runeError, 1)
+  else (runeError, 1)
+
+/-- the runes of a byte string; `fuel` (the length suffices) bounds the recursion -/
+def utf8DecodeF : Nat → Str → Str
+  | 0, _ => []
+  | _, [] => []
+  | fuel + 1, c :: r =>
+    let (ru, w) := decodeRune1 c r
+    ru :: utf8DecodeF fuel (r.drop (w - 1))
+
+def utf8Decode (s : Str) : Str := utf8DecodeF s.length s
+
+/-- `for _, x := range s { … uint8(x) … }`: the runes truncated to a byte (how BitStringFromFiftHex read its input
+before it was made byte-wise; kept for the record) -/
+def runeBytes (s : Str) : Str := (utf8Decode s).map fun r => Char.ofNat (r.toNat % 256)
+
+/-- utf8.EncodeRune (surrogates and values above U+10FFFF become U+FFFD) -/
+def utf8EncodeRune (n : Nat) : Str :=
+  let n := if (0xD800 ≤ n ∧ n ≤ 0xDFFF) ∨ 0x10FFFF < n then 0xFFFD else n
+  if n < 0x80 then [Char.ofNat n]
+  else if n < 0x800 then [Char.ofNat (0xC0 + n / 64), Char.ofNat (0x80 + n % 64)]
+  else if n < 0x10000 then [Char.ofNat (0xE0 + n / 4096), Char.ofNat (0x80 + n / 64 % 64), Char.ofNat (0x80 + n % 64)]
+  else [Char.ofNat (0xF0 + n / 262144), Char.ofNat (0x80 + n / 4096 % 64), Char.ofNat (0x80 + n / 64 % 64),
+    Char.ofNat (0x80 + n % 64)]
+
+def utf8Encode (s : Str) : Str := s.flatMap fun c => utf8EncodeRune c.toNat
+
+def hex4 (a b c d : Char) : Option Nat :=
+  match Hex.charNibble? a, Hex.charNibble? b, Hex.charNibble? c, Hex.charNibble? d with
+  | some a, some b, some c, some d => some (((a * 16 + b) * 16 + c) * 16 + d)
+  | _, _, _, _ => none
+
+/-- encoding/json's unquote without the final UTF-8 sanitation: the bytes of the string with the escapes resolved
+(`\uXXXX` becomes the UTF-8 encoding of the code point; a high surrogate followed by an escaped low surrogate is one
+code point, any other surrogate is U+FFFD) -/
 def unescape : Str → Str
   | [] => []
+  | '\\' :: 'u' :: a :: b :: c :: d :: '\\' :: 'u' :: e :: f :: g :: h :: r =>
+    match hex4 a b c d, hex4 e f g h with
+    | some hi, some lo =>
+      if 0xD800 ≤ hi ∧ hi ≤ 0xDBFF ∧ 0xDC00 ≤ lo ∧ lo ≤ 0xDFFF then
+        utf8EncodeRune (0x10000 + (hi - 0xD800) * 0x400 + (lo - 0xDC00)) ++ unescape r
+      else utf8EncodeRune hi ++ unescape ('\\' :: 'u' :: e :: f :: g :: h :: r)
+    | some hi, none => utf8EncodeRune hi ++ unescape ('\\' :: 'u' :: e :: f :: g :: h :: r)
+    | none, _ => unescape ('\\' :: 'u' :: e :: f :: g :: h :: r)
   | '\\' :: 'u' :: a :: b :: c :: d :: r =>
-    match Hex.charNibble? a, Hex.charNibble? b, Hex.charNibble? c, Hex.charNibble? d with
-    | some a, some b, some c, some d => Char.ofNat (((a * 16 + b) * 16 + c) * 16 + d) :: unescape r
-    | _, _, _, _ => unescape r
+    match hex4 a b c d with
+    | some x => utf8EncodeRune x ++ unescape r
+    | none => unescape r
   | '\\' :: e :: r =>
     (if e == 'b' then Char.ofNat 8 else if e == 'f' then Char.ofNat 12 else if e == 'n' then '\n'
      else if e == 'r' then '\r' else if e == 't' then '\t' else e) :: unescape r
   | c :: r => c :: unescape r
+termination_by s => s.length
+
+/-- the Go string a JSON string literal denotes: escapes resolved, every invalid UTF-8 byte replaced by U+FFFD -/
+def goUnquote (body : Str) : Str := utf8Encode (utf8Decode (unescape body))
 
 /-- json.Unmarshal(data, &s) for a Go `string` target with s = "" before: syntax error, type error for anything but a
 string or null; `null` leaves the string empty -/
@@ -152,7 +232,7 @@ def unmarshalString (data : Str) : Outcome Str :=
   else
     let v := trimWs data
     match v with
-    | '"' :: r => .ok (unescape r.dropLast)
+    | '"' :: r => .ok (goUnquote r.dropLast)
     | 'n' :: _ => .ok []
     | _ => .err "type"
 
@@ -197,12 +277,13 @@ def parseInt256 (p : Str) : Outcome (List UInt8) :=
   | .err e => .err e
   | .panic e => .panic e
 
-/-! ### ton.Bits256: `fmt.Fscanf(r, "\"%x\"", &sl)` (fmt/scan.go), modelled on ASCII input -/
+/-! ### ton.Bits256: `fmt.Fscanf(r, "\"%x\"", &sl)` (fmt/scan.go) -/
 
-/-- fmt's isSpace restricted to code points below 256 -/
+/-- fmt's isSpace (a copy of unicode.White_Space below U+10000) -/
 def isScanSpace (c : Char) : Bool :=
   let n := c.toNat
-  (9 ≤ n && n ≤ 13) || n == 32 || n == 0x85 || n == 0xa0
+  (9 ≤ n && n ≤ 13) || n == 32 || n == 0x85 || n == 0xa0 || n == 0x1680 || (0x2000 ≤ n && n ≤ 0x200a) ||
+    n == 0x2028 || n == 0x2029 || n == 0x202f || n == 0x205f || n == 0x3000
 
 /-- ss.SkipSpace with nlIsSpace = false: a newline is an error ("unexpected newline") -/
 def scanSkipSpace : Str → Outcome Str
@@ -228,7 +309,8 @@ def scanHexPairs : Str → Outcome (List UInt8 × Str)
         | .err e => .err e
         | .panic e => .panic e
 
-def parseBits256Scan (buf : Str) : Outcome (List UInt8) :=
+/-- the scan over the runes of the input -/
+def parseBits256ScanR (buf : Str) : Outcome (List UInt8) :=
   match buf with
   | '"' :: r =>
     match scanSkipSpace r with
@@ -247,6 +329,8 @@ def parseBits256Scan (buf : Str) : Outcome (List UInt8) :=
     | .err e => .err e
     | .panic e => .panic e
   | _ => .err "input does not match format"
+
+def parseBits256Scan (buf : Str) : Outcome (List UInt8) := parseBits256ScanR (utf8Decode buf)
 
 /-! ## Grams, SignedCoins, Magic, Maybe -/
 
@@ -290,7 +374,7 @@ def parseMaybe {α} (pa : Str → Outcome α) (b : Str) : Outcome (Option α) :=
     | .err e => .err e
     | .panic e => .panic e
 
-/-! ## Fift hex (boc.BitString.ToFiftHex / BitStringFromFiftHex), ASCII input -/
+/-! ## Fift hex (boc.BitString.ToFiftHex / BitStringFromFiftHex) -/
 
 def nibblesOf : List Bool → List Nat
   | a :: b :: c :: d :: r => (8 * a.toNat + 4 * b.toNat + 2 * c.toNat + d.toNat) :: nibblesOf r
@@ -308,7 +392,7 @@ def endingBits (n : Nat) : Option (List Bool) :=
 
 def nibblesToBits (ns : List Nat) : List Bool := ns.flatMap (Bits.natToBits 4)
 
-/-- hexToInt on every character -/
+/-- hexToInt on every byte (since `fix: BitStringFromFiftHex rejects non-ASCII characters` the loop is byte-wise) -/
 def nibblesOfHex : Str → Option (List Nat)
   | [] => some []
   | c :: r =>
@@ -386,7 +470,7 @@ def scanUint32 (s : Str) : Outcome (Nat × Str) :=
   | .panic e => .panic e
 
 /-- fmt.Sscanf(s, "%d,%d", &depth, &prefix): trailing input is ignored -/
-def scanAnycast (s : Str) : Outcome Anycast :=
+def scanAnycastR (s : Str) : Outcome Anycast :=
   match scanUint32 s with
   | .ok (d, r) =>
     match r with
@@ -398,6 +482,8 @@ def scanAnycast (s : Str) : Outcome Anycast :=
     | _ => .err "input does not match format"
   | .err e => .err e
   | .panic e => .panic e
+
+def scanAnycast (s : Str) : Outcome Anycast := scanAnycastR (utf8Decode s)
 
 /-- Go slice expression `s[lo:hi]` on a string: panics unless lo ≤ hi ≤ len -/
 def goSlice (s : Str) (lo hi : Nat) : Outcome Str :=
@@ -445,6 +531,201 @@ def parseViaString {α} (ofText : Str → Outcome α) (p : Str) : Outcome α :=
   | .ok s => ofText s
   | .err e => .err e
   | .panic e => .panic e
+
+end Tongo.Json
+
+namespace Tongo.Json
+open Tongo Tongo.Dec
+/-! ## message-body envelopes: abi.InMsgBody / abi.ExtOutMsgBody (abi/messages.go)
+
+    MarshalJSON:   {}                                                      (SumType = "", the empty body)
+                   {"SumType": "<name>",["OpCode":<n>,]"Value":<value>}    value = `"` + BOC hex + `"` for "Unknown",
+                                                                           json.Marshal(body.Value) for a known type
+    UnmarshalJSON: json.Unmarshal(data, &struct{SumType string; OpCode *uint32; Value json.RawMessage}), then the
+                   dispatch on SumType ("" ⇒ done, "Unknown" ⇒ Cell.UnmarshalJSON(Value), known ⇒ json.Unmarshal(Value))
+
+The cell codec and the codecs of the known body types are parameters. encoding/json's object decoding is modelled:
+members in order, keys matched after unescaping by simple case folding (ASCII, `ſ` ↦ S, `K` (Kelvin) ↦ K), later
+duplicates win, unknown keys skipped, a value of the wrong JSON type for a field is an error (encoding/json saves the
+first such error and returns it at the end). -/
+
+/-- the text of the JSON value at the head of `s` and what follows it -/
+def rawValue (fuel : Nat) (s : Str) : Option (Str × Str) :=
+  match scanJ fuel .value s with
+  | some rest => some (s.take (s.length - rest.length), rest)
+  | none => none
+
+/-- the members of an object after `{` (white space skipped, not `}`): key text (between the quotes) and value text -/
+def rawMembers (vfuel : Nat) : Nat → Str → Option (List (Str × Str))
+  | 0, _ => none
+  | n + 1, s =>
+    match s with
+    | '"' :: r =>
+      match scanString r with
+      | none => none
+      | some rest =>
+        let key := r.take (r.length - rest.length - 1)
+        match skipWs rest with
+        | ':' :: r2 =>
+          match rawValue vfuel (skipWs r2) with
+          | none => none
+          | some (v, r3) =>
+            match skipWs r3 with
+            | '}' :: _ => some [(key, v)]
+            | ',' :: r4 => (rawMembers vfuel n (skipWs r4)).map fun ms => (key, v) :: ms
+            | _ => none
+        | _ => none
+    | _ => none
+
+/-- members of the object `v` (`v` is a valid, trimmed JSON value); `none` when `v` is not an object -/
+def objectMembers (v : Str) : Option (List (Str × Str)) :=
+  match v with
+  | '{' :: r =>
+    match skipWs r with
+    | '}' :: _ => some []
+    | r' => rawMembers (2 * v.length + 2) (v.length + 1) r'
+  | _ => none
+
+/-- encoding/json's foldName on one rune -/
+def foldChar (c : Char) : Char :=
+  let n := c.toNat
+  if 97 ≤ n ∧ n ≤ 122 then Char.ofNat (n - 32)
+  else if n = 0x17F then 'S'
+  else if n = 0x212A then 'K'
+  else c
+
+def foldKey (k : Str) : Str := (utf8Decode (unescape k)).map foldChar
+
+/-- the state of the anonymous struct while its members are stored -/
+structure EnvFields where
+  sumType : Str := []
+  opCode : Option Nat := none
+  value : Option Str := none
+
+/-- literalStore for the three field types -/
+def storeMember (st : EnvFields) (key val : Str) : Outcome EnvFields :=
+  let fk := foldKey key
+  if fk = ['S', 'U', 'M', 'T', 'Y', 'P', 'E'] then
+    match val with
+    | '"' :: r => .ok { st with sumType := goUnquote r.dropLast }
+    | 'n' :: _ => .ok st
+    | _ => .err "cannot unmarshal into string"
+  else if fk = ['O', 'P', 'C', 'O', 'D', 'E'] then
+    match val with
+    | 'n' :: _ => .ok { st with opCode := none }
+    | c :: _ =>
+      if c == '"' || c == '{' || c == '[' || c == 't' || c == 'f' then .err "cannot unmarshal into uint32"
+      else match parseUint val 10 64 with
+        | .ok n => if n < 2 ^ 32 then .ok { st with opCode := some n } else .err "overflow"
+        | _ => .err "cannot unmarshal number into uint32"
+    | [] => .err "empty"
+  else if fk = ['V', 'A', 'L', 'U', 'E'] then .ok { st with value := some val }
+  else .ok st
+
+def storeMembers (st : EnvFields) : List (Str × Str) → Outcome EnvFields
+  | [] => .ok st
+  | (k, v) :: ms => (storeMember st k v).bind fun st' => storeMembers st' ms
+
+/-- json.Unmarshal(data, &r) for the anonymous struct -/
+def unmarshalEnvelope (data : Str) : Outcome EnvFields :=
+  if !valid data then .err "syntax"
+  else
+    let v := trimWs data
+    match v with
+    | 'n' :: _ => .ok {}
+    | _ =>
+      match objectMembers v with
+      | some ms => storeMembers {} ms
+      | none => .err "cannot unmarshal into struct"
+
+/-- a decoded message body: empty, unknown (a cell), or a known type -/
+inductive Body (C V : Type) where
+  | empty (op : Option Nat)
+  | unknown (op : Option Nat) (c : C)
+  | known (name : Str) (op : Option Nat) (v : V)
+
+def unknownName : Str := ['U', 'n', 'k', 'n', 'o', 'w', 'n']
+
+/-- InMsgBody.UnmarshalJSON / ExtOutMsgBody.UnmarshalJSON; `parseCell` is Cell.UnmarshalJSON, `parseKnown name` the
+decoder of the registered type of that name (`none`: not registered) -/
+def parseEnvelope {C V} (parseCell : Str → Outcome C) (parseKnown : Str → Option (Str → Outcome V)) (data : Str) :
+    Outcome (Body C V) :=
+  (unmarshalEnvelope data).bind fun r =>
+    if r.sumType = [] then .ok (.empty r.opCode)
+    else if r.sumType = unknownName then
+      match r.value with
+      | none => .err "unexpected end of JSON input"
+      | some raw => (parseCell raw).bind fun c => .ok (.unknown r.opCode c)
+    else
+      match parseKnown r.sumType with
+      | none => .err "unknown message body type"
+      | some pk =>
+        match r.value with
+        | none => .err "unexpected end of JSON input"
+        | some raw => (pk raw).bind fun v => .ok (.known r.sumType r.opCode v)
+
+def kSum : Str := ['S', 'u', 'm', 'T', 'y', 'p', 'e']
+def kOp : Str := ['O', 'p', 'C', 'o', 'd', 'e']
+def kVal : Str := ['V', 'a', 'l', 'u', 'e']
+
+/-- `"OpCode":<n>,` -/
+def printOp : Option Nat → Str
+  | none => []
+  | some n => '"' :: kOp ++ '"' :: ':' :: printNat n ++ [',']
+
+/-- `{"SumType": "<name>",["OpCode":<n>,]"Value":<value>}` (the blank after the first colon is in the Go source) -/
+def envText (name : Str) (op : Option Nat) (pv : Str) : Str :=
+  '{' :: ('"' :: kSum ++ '"' :: ':' :: [' '] ++ quote name ++ ',' :: (printOp op ++ ('"' :: kVal ++ '"' :: ':' :: pv ++ ['}'])))
+
+/-- InMsgBody.MarshalJSON (an empty body drops its op code) -/
+def printEnvelope {C V} (printCell : C → Str) (printKnown : V → Str) : Body C V → Str
+  | .empty _ => ['{', '}']
+  | .unknown op c => envText unknownName op (printCell c)
+  | .known name op v => envText name op (printKnown v)
+
+/-! ## a composite record through encoding/json's default struct codec: tlb.Anycast inside tlb.Maybe
+
+`Maybe[Anycast]` is the optional value of a record WITHOUT JSON methods of its own: json.Marshal writes
+`{"Depth":<d>,"RewritePfx":<p>}`, json.Unmarshal stores the members by (case-folded) name into two uint32 fields. -/
+
+def kDepth : Str := ['D', 'e', 'p', 't', 'h']
+def kPfx : Str := ['R', 'e', 'w', 'r', 'i', 't', 'e', 'P', 'f', 'x']
+
+def printAnycastJson (a : Anycast) : Str :=
+  '{' :: ('"' :: kDepth ++ '"' :: ':' :: printNat a.depth ++ ',' :: ('"' :: kPfx ++ '"' :: ':' :: printNat a.pfx ++ ['}']))
+
+/-- literalStore into a uint32 field: `null` leaves it, a number must be a decimal integer that fits -/
+def storeUint32 (old : Nat) (val : Str) : Outcome Nat :=
+  match val with
+  | 'n' :: _ => .ok old
+  | c :: _ =>
+    if c == '"' || c == '{' || c == '[' || c == 't' || c == 'f' then .err "cannot unmarshal into uint32"
+    else match parseUint val 10 64 with
+      | .ok n => if n < 2 ^ 32 then .ok n else .err "overflow"
+      | _ => .err "cannot unmarshal number into uint32"
+  | [] => .err "empty"
+
+def storeAnycastMember (a : Anycast) (key val : Str) : Outcome Anycast :=
+  let fk := foldKey key
+  if fk = ['D', 'E', 'P', 'T', 'H'] then (storeUint32 a.depth val).bind fun d => .ok { a with depth := d }
+  else if fk = ['R', 'E', 'W', 'R', 'I', 'T', 'E', 'P', 'F', 'X'] then (storeUint32 a.pfx val).bind fun p => .ok { a with pfx := p }
+  else .ok a
+
+def storeAnycastMembers (a : Anycast) : List (Str × Str) → Outcome Anycast
+  | [] => .ok a
+  | (k, v) :: ms => (storeAnycastMember a k v).bind fun a' => storeAnycastMembers a' ms
+
+/-- json.Unmarshal(data, &anycast) on a zero value -/
+def parseAnycastJson (data : Str) : Outcome Anycast :=
+  if !valid data then .err "syntax"
+  else
+    let v := trimWs data
+    match v with
+    | 'n' :: _ => .ok ⟨0, 0⟩
+    | _ =>
+      match objectMembers v with
+      | some ms => storeAnycastMembers ⟨0, 0⟩ ms
+      | none => .err "cannot unmarshal into struct"
 
 end Tongo.Json
 
